@@ -215,13 +215,20 @@ def gen_world(rng):
     if opt(0.6):
         a.append("class %s(%s):\n    def m(self, y):\n        return y\n\n" % (cb, ca))
     has_mm = False
-    if a[0].startswith("import extmod") and opt(0.6):
+    if a[0].startswith("import extmod") and opt(0.9):
         # a class holding instances of a class of ANOTHER project module (h.H) and of the out-of-project module
         # (extmod.ExtC): destinations of MoveMethod inside / outside the project
         a.insert(1, "import h\n")
         a.append("class M:\n    def __init__(self):\n        self.hh = h.H()\n        self.ext = extmod.ExtC()\n\n"
                  "    def mm(self, x):\n        return x + 1\n\n")
         has_mm = True
+    if opt(0.5):
+        # targets of the wrong kind for most refactorings: class attribute, lambda, static / class method, property,
+        # nested function
+        a.append("class K:\n    attr = 3\n    lam = lambda q: q + 1\n\n    @staticmethod\n    def sm():\n        return 1\n\n"
+                 "    @classmethod\n    def cm(cls, x):\n        return cls.attr + x\n\n    @property\n    def pr(self):\n"
+                 "        return self.attr\n\n    def outer(self, y):\n        def inner(z):\n            return z + y\n"
+                 "        return inner(1)\n\nk_use = K.sm() + K().pr + K.cm(2) + K.lam(1)\n\n")
     if opt(0.3):
         a.append("# %s and %s in a comment\ns = '%s in a string'\n" % (fa, ca, fa))
     b = []
@@ -252,6 +259,11 @@ def gen_world(rng):
             files["proj/pkg/d.py"] = "import b\n\nq = b.h(2)\n"
         c.append("\ndef k():\n    return %s(1) + a.%s\n" % (fa, va))
         files["proj/pkg/c.py"] = "".join(c)
+        if opt(0.6):
+            # a second package and a plain folder: destinations for moving a package INTO an existing folder
+            files["proj/sub/__init__.py"] = ""
+            files["proj/sub/e.py"] = "import a\n\ne1 = a.%s\n" % va
+            files["proj/plain/readme.txt"] = "plain folder\n"
     # ignored resources: reference the same names, must never be touched
     files["proj/skip/z.py"] = "from a import %s\nimport a\nprint(%s(1), a.%s)\n" % (fa, fa, va)
     files["proj/ign_q.py"] = "import a\nprint(a.%s(2), a.%s)\n" % (fb, ca)
@@ -518,7 +530,7 @@ def build_change(project, spec):
         return ch.ChangeContents(project.get_file(spec[1]), spec[2])
     if k == "MV":
         res = project.get_folder(spec[1]) if spec[3] else project.get_file(spec[1])
-        return ch.MoveResource(res, spec[2], exact=True)
+        return ch.MoveResource(res, spec[2], exact=not (len(spec) > 4 and spec[4] == "as-requested"))
     if k == "CR":
         parent, _, name = spec[1].rpartition("/")
         if len(spec) > 3 and spec[3]:
@@ -731,7 +743,8 @@ def exc_info(e):
     site = None
     while tb is not None:
         fn = tb.tb_frame.f_code.co_filename.replace("\\", "/")
-        if "/rope/" in fn and not fn.endswith("rope/base/ast.py"):      # ast.parse wrapper: blame its caller
+        if "/rope/" in fn and not fn.endswith(("rope/base/ast.py", "rope/base/codeanalyze.py")):
+            # generic helpers (ast.parse wrapper, line tables): blame their caller
             site = "%s:%s" % (fn.split("/rope/", 1)[1], tb.tb_frame.f_code.co_name)
         tb = tb.tb_next
     return {"cls": type(e).__name__, "module": type(e).__module__,
